@@ -246,6 +246,17 @@ class Instr:
                 try:
                     return orig(self_, ctx)
                 finally:
+                    fo = self_._main_kwargs.get('fileobj') if isinstance(self_._main_kwargs, dict) else None
+                    for _ in range(6):          # ReadFileChunk -> (BandwidthLimitedStream) -> InterruptReader -> BytesIO
+                        if fo is None:
+                            break
+                        if hasattr(fo, 'getbuffer'):
+                            try:
+                                fo.dead = True
+                            except AttributeError:
+                                pass
+                            break
+                        fo = getattr(fo, '_fileobj', None)
                     I.log('task_end', t=self_.transfer_id, task=k)
             return __call__
         wrap(Task, '__call__', mk_call)
